@@ -1,6 +1,6 @@
 --------------------------------- MODULE Denote ---------------------------------
 (* Dispatch from an operation event to its reference meaning.                    *)
-EXTENDS Views
+EXTENDS Views, Broadcast
 
 Operand(e, j) == Leaf(e.shapes[j], j - 1)
 
@@ -15,4 +15,13 @@ Expect(e) ==
       [] e.op = "squeeze"     -> Squeeze(a)
       [] e.op = "atleast_nd"  -> AtLeastND(a, e.args.nd)
       [] e.op = "flip"        -> Flip(a, e.args.axis)
+      \* C06
+      [] e.op = "broadcast_shape" -> LET r == BShapeN(e.shapes) IN [ok |-> r[1], shape |-> r[2], elems |-> <<>>]
+      [] e.op = "shape_broadcast_to" -> IF BroadcastToOk(e.shapes[1], e.args.dst) THEN [ok |-> TRUE, shape |-> e.args.dst, elems |-> <<>>] ELSE Nothing
+      [] e.op = "broadcast_to" -> BroadcastTo(a, e.args.dst)
+      [] e.op = "broadcast_arrays" ->
+            LET r == BShapeN(e.shapes) IN
+            IF r[1] THEN [ok |-> TRUE, shape |-> [j \in 1..Len(e.shapes) |-> r[2]],
+                          elems |-> [j \in 1..Len(e.shapes) |-> BroadcastTo(Operand(e, j), r[2]).elems]]
+            ELSE Nothing
 =================================================================================
